@@ -280,6 +280,14 @@ def main():
         if rc2 != 0 and not cargo_broken:
             cargo_broken = "\n".join([l for l in out2.split("\n") if l.startswith("error")][:10])
 
+    for crate in getattr(mod, "EXTRA_CRATES", []):
+        # further harness crates (the alloc-only twin): rebuilt from /repo's working tree like the main harness
+        rc3, out3 = sh(["cargo", "build", "--offline", "--release"], cwd=os.path.join(VERIF, crate), timeout=3600)
+        with open(os.path.join(ctx.work, "cargo-%s.log" % crate), "w") as f:
+            f.write(out3)
+        if rc3 != 0 and not cargo_broken:
+            cargo_broken = "\n".join([l for l in out3.split("\n") if l.startswith("error")][:10])
+
     fcntl.flock(lock_f, fcntl.LOCK_UN)
     lock_f.close()
     stats = {}
